@@ -1,45 +1,125 @@
-//! Native replay for C14 (select): real event loop, plain thread caller, hooked entry point.
+//! Native replay for C14: real event loop, real dependencies, plain-thread caller, the crate's public hooked
+//! entry points (`crate::syscall::{select, poll, nanosleep, usleep, sleep}`). The verifier's counterexample is
+//! passed in by the driver: VERIF_C14_KIND = select_time | select_invalid | poll_time | nanosleep_invalid |
+//! nanosleep_time | usleep_time | sleep_time, VERIF_C14_A / VERIF_C14_B = the argument values.
+//!
+//! Timing verdicts are one-sided on purpose. "Returned before the requested time" is definite (the monotonic clock
+//! cannot lie in that direction). "Returned too late" is definite only when the excess is far beyond scheduling
+//! noise (SLACK); anything in between prints VERIF-REPLAY-UNDECIDED and never overrules the verifier.
+//! A panic inside an `extern "C"` function aborts the process, so every scenario runs in a forked child with an
+//! alarm as the upper limit.
 use super::*;
 
+const SLACK_NS: u128 = 150_000_000; // 150 ms + the requested time again
+const ALARM_S: u32 = 4;
+
+fn arg(name: &str) -> i64 { std::env::var(name).ok().and_then(|s| s.parse().ok()).unwrap_or(0) }
+
+/// exit status of the child: 0 = within [requested, requested + slack]; 2 = early; 3 = late; 4 = wrong return value;
+/// 5 = invalid argument accepted / wrong errno; 1000 + signal when killed (1006 = abort, 1014 = alarm)
 fn in_child(f: fn() -> i32) -> i32 {
     unsafe {
         let pid = libc::fork();
-        if pid == 0 { let c = f(); libc::_exit(c); }
-        let mut st = 0; libc::waitpid(pid, &mut st, 0);
+        if pid == 0 { let _ = libc::alarm(ALARM_S); let c = f(); libc::_exit(c); }
+        let mut st = 0; let _ = libc::waitpid(pid, &mut st, 0);
         if libc::WIFEXITED(st) { libc::WEXITSTATUS(st) } else { 1000 + libc::WTERMSIG(st) }
     }
 }
 
-fn scenario_units() -> i32 {
-    crate::net::EventLoops::init(&crate::config::Config::single());
-    let mut tv = timeval { tv_sec: 0, tv_usec: 30_000 }; // 30 ms
-    let t0 = std::time::Instant::now();
-    unsafe { libc::alarm(3); } // give up after 3 s: a select of 30 ms must long be back
-    let r = crate::syscall::select(None, 0, std::ptr::null_mut(), std::ptr::null_mut(), std::ptr::null_mut(), &raw mut tv);
-    let ms = t0.elapsed().as_millis();
-    if r == 0 && ms >= 30 && ms < 1500 { 0 } else { 2 }
+fn judge(requested_ns: u128, ret_ok: bool, t0: std::time::Instant) -> i32 {
+    let e = t0.elapsed().as_nanos();
+    eprintln!("VERIF-REPLAY-CHILD requested_ns={requested_ns} elapsed_ns={e} ret_ok={ret_ok}");
+    if !ret_ok { 4 } else if e < requested_ns { 2 } else if e > 2 * requested_ns + 1_000_000 + SLACK_NS { 3 } else { 0 }
 }
 
-fn scenario_negative() -> i32 {
-    crate::net::EventLoops::init(&crate::config::Config::single());
-    let mut tv = timeval { tv_sec: -1, tv_usec: 0 };
+fn init() { crate::net::EventLoops::init(&crate::config::Config::single()); }
+
+fn sc_select_time() -> i32 {
+    init();
+    let usec = arg("VERIF_C14_B");
+    let mut tv = timeval { tv_sec: arg("VERIF_C14_A"), tv_usec: usec };
+    let want = (tv.tv_sec as u128) * 1_000_000_000 + (usec as u128) * 1_000;
+    let t0 = std::time::Instant::now();
+    let r = crate::syscall::select(None, 0, std::ptr::null_mut(), std::ptr::null_mut(), std::ptr::null_mut(), &raw mut tv);
+    judge(want, r == 0, t0)
+}
+
+fn sc_select_invalid() -> i32 {
+    init();
+    let mut tv = timeval { tv_sec: arg("VERIF_C14_A"), tv_usec: arg("VERIF_C14_B") };
     unsafe { *libc::__errno_location() = 0; }
     let r = crate::syscall::select(None, 0, std::ptr::null_mut(), std::ptr::null_mut(), std::ptr::null_mut(), &raw mut tv);
-    if r == -1 && unsafe { *libc::__errno_location() } == libc::EINVAL { 0 } else { 2 }
+    let e = unsafe { *libc::__errno_location() };
+    eprintln!("VERIF-REPLAY-CHILD select(tv_sec={}, tv_usec={}) returned {r}, errno {e}", tv.tv_sec, tv.tv_usec);
+    if r == -1 && e == libc::EINVAL { 0 } else { 5 }
+}
+
+fn sc_poll_time() -> i32 {
+    init();
+    let ms = arg("VERIF_C14_A");
+    let t0 = std::time::Instant::now();
+    let r = crate::syscall::poll(None, std::ptr::null_mut(), 0, ms as std::ffi::c_int);
+    judge((ms as u128) * 1_000_000, r == 0, t0)
+}
+
+fn sc_nanosleep_invalid() -> i32 {
+    init();
+    let rq = libc::timespec { tv_sec: arg("VERIF_C14_A"), tv_nsec: arg("VERIF_C14_B") };
+    unsafe { *libc::__errno_location() = 0; }
+    let r = crate::syscall::nanosleep(None, &rq, std::ptr::null_mut());
+    let e = unsafe { *libc::__errno_location() };
+    eprintln!("VERIF-REPLAY-CHILD nanosleep(tv_sec={}, tv_nsec={}) returned {r}, errno {e}", rq.tv_sec, rq.tv_nsec);
+    if r == -1 && e == libc::EINVAL { 0 } else { 5 }
+}
+
+fn sc_nanosleep_time() -> i32 {
+    init();
+    let rq = libc::timespec { tv_sec: arg("VERIF_C14_A"), tv_nsec: arg("VERIF_C14_B") };
+    let t0 = std::time::Instant::now();
+    let r = crate::syscall::nanosleep(None, &rq, std::ptr::null_mut());
+    judge((rq.tv_sec as u128) * 1_000_000_000 + rq.tv_nsec as u128, r == 0, t0)
+}
+
+fn sc_usleep_time() -> i32 {
+    init();
+    let us = arg("VERIF_C14_A");
+    let t0 = std::time::Instant::now();
+    let r = crate::syscall::usleep(None, us as std::ffi::c_uint);
+    judge((us as u128) * 1_000, r == 0, t0)
+}
+
+fn sc_sleep_time() -> i32 {
+    init();
+    let s = arg("VERIF_C14_A");
+    let t0 = std::time::Instant::now();
+    let r = crate::syscall::sleep(None, s as std::ffi::c_uint);
+    judge((s as u128) * 1_000_000_000, r == 0, t0)
 }
 
 #[test]
-fn c14_native_select_units() {
-    let c = in_child(scenario_units);
-    println!("VERIF-REPLAY child status {c}");
-    if c == 0 { println!("VERIF-REPLAY-NOT-REPRODUCED"); }
-    else { println!("VERIF-REPLAY-REPRODUCED C14: select with a 30 ms timeout and nothing ready was not back within 1.5 s (status {c}; 1014 = killed by the 3 s alarm)"); }
-}
-
-#[test]
-fn c14_native_select_negative() {
-    let c = in_child(scenario_negative);
-    println!("VERIF-REPLAY child status {c}");
-    if c == 0 { println!("VERIF-REPLAY-NOT-REPRODUCED"); }
-    else { println!("VERIF-REPLAY-REPRODUCED C14: select with tv_sec = -1 did not return -1/EINVAL (status {c}; 1006 = process aborted)"); }
+fn c14_native_replay() {
+    let kind = std::env::var("VERIF_C14_KIND").unwrap_or_default();
+    let (f, invalid): (fn() -> i32, bool) = match kind.as_str() {
+        "select_time" => (sc_select_time, false),
+        "select_invalid" => (sc_select_invalid, true),
+        "poll_time" => (sc_poll_time, false),
+        "nanosleep_invalid" => (sc_nanosleep_invalid, true),
+        "nanosleep_time" => (sc_nanosleep_time, false),
+        "usleep_time" => (sc_usleep_time, false),
+        "sleep_time" => (sc_sleep_time, false),
+        _ => { println!("VERIF-REPLAY unknown kind {kind:?}"); return; }
+    };
+    let c = in_child(f);
+    println!("VERIF-REPLAY kind={kind} a={} b={} child status {c}", arg("VERIF_C14_A"), arg("VERIF_C14_B"));
+    match (c, invalid) {
+        (0, true) => println!("VERIF-REPLAY-NOT-REPRODUCED the invalid argument was rejected with -1/EINVAL"),
+        (0, false) => println!("VERIF-REPLAY-UNDECIDED elapsed time within [requested, 2 x requested + 151 ms]: a difference of this size is below scheduling noise"),
+        (2, _) => println!("VERIF-REPLAY-REPRODUCED C14: the call returned BEFORE the requested time had elapsed"),
+        (3, _) => println!("VERIF-REPLAY-REPRODUCED C14: the call returned more than 150 ms + the requested time too late"),
+        (4, _) => println!("VERIF-REPLAY-REPRODUCED C14: the call did not return 0 with nothing ready"),
+        (5, _) => println!("VERIF-REPLAY-REPRODUCED C14: the invalid time argument was not rejected with -1/EINVAL"),
+        (1006, _) => println!("VERIF-REPLAY-REPRODUCED C14: the process aborted (panic inside an extern \"C\" function)"),
+        (1014, _) => println!("VERIF-REPLAY-REPRODUCED C14: the call was still waiting when the {ALARM_S} s alarm fired"),
+        _ => println!("VERIF-REPLAY-REPRODUCED C14: child ended with status {c}"),
+    }
 }
